@@ -24,6 +24,8 @@ STD = "src/spox/_standard.py"
 
 _LOOP_TAIL = "    ).outputs.v_final_and_scan_outputs\n"
 _SCAN_TAIL = "    ).outputs.final_state_and_scan_outputs\n"
+_IF_TAIL = "    ).outputs.outputs\n"
+V19 = "src/spox/opset/ai/onnx/v19.py"
 
 
 def _ctor_post(src: str, fn: str, cls: str, tail: str, post: str) -> str:
@@ -121,6 +123,29 @@ MUTANTS: dict = {
     "inline_propagates_through_control_flow": ("src/spox/_inline.py", lambda s: s.replace(
         "            for node in self.graph.node\n            for attr in node.attribute\n        ):",
         "            for node in self.graph.node\n            for attr in node.attribute\n        ) and False:", 1)),
+    # ---- round 10 (If result types = join of the branches; Scan final states)
+    "if_then_dims_v21_ctor": (V21, lambda s: _ctor_post(s, "if_", "_If", _IF_TAIL,
+        "    for _o, _t in zip(_outs, _then_branch_subgraph.requested_results.values()):\n"
+        "        if (isinstance(_o.type, Tensor) and isinstance(_t.type, Tensor) and _o.type.shape is not None\n"
+        "                and _t.type.shape is not None and len(_o.type.shape) == len(_t.type.shape)):\n"
+        "            _o.type = Tensor(_o.type.dtype, tuple(a if a is not None else b for a, b in zip(_o.type.shape, _t.type.shape)))\n"
+        "    return _outs\n")),
+    "if_unknown_rank_from_else_v17_override": (V17, lambda s: s.replace(
+        '    op_type = OpType("If", "", 16)\n',
+        "    def infer_output_types(self) -> Dict[str, Type]:\n"
+        "        output_types = super().infer_output_types()\n"
+        "        res = list(self.attrs.else_branch.value.requested_results.values())\n"
+        "        for name, r in zip(self.outputs.get_vars(), res):\n"
+        "            t = output_types.get(name)\n"
+        "            if isinstance(t, Tensor) and isinstance(r.type, Tensor) and t.shape is None:\n"
+        "                output_types[name] = r.type\n"
+        "        return output_types\n\n"
+        '    op_type = OpType("If", "", 16)\n', 1)),
+    "scan_states_swapped_slots_v17_ctor": (V17, lambda s: _ctor_post(s, "scan", "_Scan", _SCAN_TAIL,
+        "    _ns = len(initial_state_and_scan_inputs) - num_scan_inputs\n"
+        "    if _ns >= 2:\n"
+        "        _outs[0].type, _outs[1].type = _outs[1].type, _outs[0].type\n"
+        "    return _outs\n")),
     "compress_fix_reverted": (V17, lambda s: s.replace(
         "        if inp.shape is None and self.attrs.axis is not None:", "        if not inp.shape:", 1)),
 }
